@@ -1,4 +1,5 @@
 //@ contract nitrogql_checker::type_system_checker ::fn check_interface
+//@   requires [C05.ts_interface.pre_schema_wf] crate::schema_wf(&definitions.type_system)
 //@   ensures [C05.ts_interface.frame] crate::extends_errs(old(result)@, final(result)@)
 //@   ensures [C05.ts_interface.sound] final(result)@.len() == old(result)@.len() ==> crate::valid_interface(interface, definitions)
 //@   ensures [C05.ts_interface.complete] crate::valid_interface(interface, definitions) ==> final(result)@.len() == old(result)@.len()
